@@ -1,6 +1,7 @@
 import Heathcliff.Proofs.C10H
 import Heathcliff.Proofs.C10I
 import Heathcliff.Proofs.GenRns2
+import Heathcliff.Proofs.GenRns5
 
 /- Property theorems only (statements verbatim; proofs are the helper lemmas of Heathcliff/Proofs). -/
 namespace HC.C10
@@ -149,5 +150,23 @@ theorem gen_multiply_operand_eq (c : List Nat) (o : MulOperand) (m : Modulus) (r
 /-- `util::set_uint` on buffers of exactly `len` words -/
 theorem gen_set_uint_eq (src tgt : List Nat) (n : Nat) (h1 : src.length = n) (h2 : tgt.length = n) : HC.GenR.set_uint src n tgt = .ok src :=
   HC.gr_set_uint_eq src tgt n h1 h2
+
+/-! ### translator tie, phase 4f: `BaseConverter::fast_convert_array` and the BEHZ routines built on it (Proofs/GenRns4.lean, GenRns5.lean) -/
+
+/-- `BaseConverter::fast_convert_array` generated from the source = `BaseConverter.fastConvertArray` on the flat layout, for every converter built by
+    `BaseConverter.new` from well-formed bases, word inputs, and ANY destination buffer of the right shape (every position is written) -/
+theorem gen_fast_convert_array_eq : type_of% @HC.gr_fast_convert_array_eq := @HC.gr_fast_convert_array_eq
+/-- the same for a converter given by its properties (`gr_ConvOK` is what `BaseConverter.new` establishes: `gen_convOK_new`) -/
+theorem gen_fast_convert_array_core : type_of% @HC.gr_fca_core := @HC.gr_fca_core
+theorem gen_convOK_new : type_of% @HC.gr_convOK_new := @HC.gr_convOK_new
+/-- END TO END with the C10 theorem: the generated function returns `(X_j + α_j·Q) mod p_o` at position `o·n + j`, one `α_j < k` for all output moduli -/
+theorem gen_fast_convert_array_crt : type_of% @HC.gr_fast_convert_array_crt := @HC.gr_fast_convert_array_crt
+/-- `RNSTool::fast_floor` generated from the source = `RNSTool.fastFloor`; its call of `base_q_to_Bsk_conv.fast_convert_array` is the generated
+    `fast_convert_array` on the fields of the model's `qToBsk` (`gr_convF`) -/
+theorem gen_fast_floor_eq : type_of% @HC.gr_fast_floor_eq := @HC.gr_fast_floor_eq
+
+/-- END TO END (BEHZ small Montgomery reduction): generated `sm_mrq` composed with `smMrq_spec` and `smMrq_scalar`: position `i·n + j` of ANY destination
+    buffer receives `((Y_j + q·r_j)/m̃) mod b_i`, `r_j` the centred representative of `−Y_j·q⁻¹ mod m̃`, and `m̃ ∣ Y_j + q·r_j` -/
+theorem gen_sm_mrq_montgomery : type_of% @HC.gr_sm_mrq_montgomery := @HC.gr_sm_mrq_montgomery
 
 end HC.C10
